@@ -93,8 +93,12 @@ func newFakeIDP(clientID string) *fakeIDP {
 		idTokens: map[string]int{}, start: time.Now()}
 }
 
-func (p *fakeIDP) GetPublicJwkSet(_ context.Context) (*jwk.Set, error)     { return &p.keys.JwksPair.Public, nil }
-func (p *fakeIDP) RefreshPublicJwkSet(_ context.Context) (*jwk.Set, error) { return &p.keys.JwksPair.Public, nil }
+func (p *fakeIDP) GetPublicJwkSet(_ context.Context) (*jwk.Set, error) {
+	return &p.keys.JwksPair.Public, nil
+}
+func (p *fakeIDP) RefreshPublicJwkSet(_ context.Context) (*jwk.Set, error) {
+	return &p.keys.JwksPair.Public, nil
+}
 
 // authorize plays the browser + provider front channel: it takes the authorization
 // request parameters wonderwall produced and returns an authorization code.
